@@ -221,7 +221,7 @@ def server_result_tier(ctx):
     initialize (capabilities, serverInfo), tools/list, resources/list - under both backends."""
     caps_pool = [
         {"tools": {"listChanged": True}},
-        {"logging": {}, "completion": {}, "prompts": {}, "tools": {}, "resources": {}},          # flag-less = advertised
+        {"logging": {}, "completions": {}, "prompts": {}, "tools": {}, "resources": {}},          # flag-less = advertised
         {"resources": {"subscribe": False, "listChanged": False}, "prompts": {"listChanged": False}},
         {"experimental": {"x": {}, "y": {"deep": [None, 0, False, ""]}}, "x-vendor": {}, "x-other": {"a": None}},
         {},
@@ -259,6 +259,28 @@ def server_result_tier(ctx):
     if outs["pydantic"]["pydantic_available"] is not True or outs["fallback"]["pydantic_available"] is not False:
         ctx.inconclusive_because("backend selection not effective in the server result workers")
         return
+    # the names a server may use for its capabilities are pinned from the MCP schema (2025-03-26 / 2025-06-18), not read
+    # from the model under test
+    SPEC_SERVER_CAPABILITIES = {"experimental", "logging", "completions", "prompts", "resources", "tools"}
+    for b in ("pydantic", "fallback"):
+        it = outs[b].get("init_typed")
+        if not it or it[0] != "ok":
+            ctx.inconclusive_because(f"typed server configuration could not be driven ({b}): {it}")
+            continue
+        ctx.count("typed_server_configurations")
+        fields, w, text = it[1], it[2], it[3]
+        caps = ((w or {}).get("result") or {}).get("capabilities") or {}
+        import json as _json
+        caps_as_sent = ((_json.loads(text) or {}).get("result") or {}).get("capabilities") or {}
+        for label, cc in (("by_alias dump of the answer", caps), ("answer as serialised for the wire", caps_as_sent)):
+            bad = sorted(k for k in cc if k not in SPEC_SERVER_CAPABILITIES)
+            if bad:
+                ctx.violation("python_name_on_wire", f"a server configured with the typed capabilities {fields} ({b}) answers initialize "
+                              f"with capabilities {sorted(cc)} ({label}): {bad} is not a capability name of the MCP schema "
+                              f"({sorted(SPEC_SERVER_CAPABILITIES)})", {"typed_server_capabilities": fields, "backend": b})
+                break
+        ctx.record({"typed_server_capabilities": fields, "backend": b}, shape=sorted(caps_as_sent), nontrivial=True,
+                   cls="server_result:typed_capabilities")
 
     def strip_nulls(v):
         # the handler dumps with exclude_none: null-valued members of the typed objects may be left out
